@@ -48,8 +48,8 @@ func c11Make(c c11Case) ops.Case {
 	if c.NilCtx && c.Cancel.Kind == "" {
 		cs.Opts.NilCtx = true
 	}
-	if c.Entry == "root" {
-		cs.Entry = "root"
+	if c.Entry == "root" || c.Entry == "alias" {
+		cs.Entry = c.Entry // "alias": the deprecated ...Programmably functions
 		r := "r"
 		cs.Root = &r
 		cs.Prog = []ops.AddStep{{P: 0, N: "a"}, {P: 1, N: "b"}, {P: 0, N: "c"}}
@@ -263,15 +263,15 @@ func c11Gen(race bool) *rapid.Generator[c11Case] {
 		switch rapid.IntRange(0, 5).Draw(t, "fault") {
 		case 0:
 			c.Faults.ReaderFailAt = rapid.IntRange(0, len(c.Doc)).Draw(t, "readerAt")
-			c.Faults.ReaderMode = rapid.IntRange(0, 1).Draw(t, "readerMode")
+			c.Faults.ReaderMode = rapid.IntRange(0, 3).Draw(t, "readerMode")
 			c.Faults.ErrKind = rapid.IntRange(0, 5).Draw(t, "errKind")
 		case 1:
 			c.Faults.WriterFailAt = rapid.IntRange(0, 3*nroots).Draw(t, "writerAt")
 			c.Faults.WriterShort = rapid.IntRange(-1, 2).Draw(t, "short")
-			c.Faults.ErrKind = rapid.IntRange(0, 5).Draw(t, "errKind")
+			c.Faults.ErrKind = rapid.IntRange(0, 8).Draw(t, "errKind")
 		case 2:
 			c.Faults.CallbackFailAt = rapid.IntRange(0, 3*nroots).Draw(t, "cbAt")
-			c.Faults.CbErrKind = rapid.IntRange(0, 7).Draw(t, "cbErr")
+			c.Faults.CbErrKind = rapid.IntRange(0, 8).Draw(t, "cbErr") // 8: the callback ends its goroutine (runtime.Goexit)
 		}
 		// the reader / writer as the library sees them: plain; io.WriterTo + io.StringWriter; a reader that is also an io.Closer
 		c.Faults.IOKind = rapid.SampledFrom([]int{0, 0, 1, 2, 5}).Draw(t, "ioKind")
@@ -308,7 +308,10 @@ func c11Gen(race bool) *rapid.Generator[c11Case] {
 			}
 		}
 		if rapid.IntRange(0, 9).Draw(t, "fromRoot") == 0 && c.Faults.ReaderBlock == 0 && (op == "text" || op == "json" || op == "walk" || op == "dryrun") {
-			c.Entry = "root"
+			c.Entry = rapid.SampledFrom([]string{"root", "root", "alias"}).Draw(t, "rootEntry")
+			if op == "walk" {
+				c.Faults.CbNested = rapid.Bool().Draw(t, "nestedCall")
+			}
 			if op == "dryrun" {
 				c.Op = "mkdir"
 				c.Exts = nil
